@@ -20,7 +20,7 @@ THEOREMS = [
     "C10.query_inside_frame_rolls_back",
 ]
 LEAN_TARGETS = ["RreModel.C10.Theorems", "RreModel.C10.SearchTheorems"]
-LEAN_FILES = ["RreModel/C09/Model.lean", "RreModel/C09/Spec.lean", "RreModel/C09/Lemmas.lean"]
+LEAN_FILES = ["RreModel/C09/Model.lean", "RreModel/C09/Spec.lean", "RreModel/C09/Lemmas.lean", "RreModel/C09/Candidates.lean"]
 EXTRA_BINS = ["c09"]
 N_B = {"quick": 1500, "thorough": 20000}
 
